@@ -83,6 +83,51 @@ theorem filter_choice (mw : S_mainmw_Middleware) (ri : Option S_agd_RequestInfo)
 
 example : written [("set fctx.filteredResponse", ["fctx.originalResponse"])] = [["fctx.originalResponse"]] := by decide
 
+/-! ## The handler `Middleware.Wrap` returns (translator round 3) -/
+
+def cnt (n : String) (tr : List (String × List String)) : Nat := (names tr).count n
+
+/-- `a` occurs and the first `b` comes after the first `a`. -/
+def before (a b : String) (tr : List (String × List String)) : Prop :=
+  a ∈ names tr ∧ (names tr).idxOf a < (names tr).idxOf b
+
+/-- **Order of effects of the main middleware**, for every outcome of every call (`fc` is the filtering
+context taken from the pool, `ctxErr` the context error after request filtering, `up` the error of the next
+handler, `dbgW` / `w` the results of the two ways of writing, `differ` whether the filtered response is
+another message than the upstream's):
+request filtering happens first; the next handler is called exactly once **whatever the verdict**, unless
+the context died during request filtering — then nothing is forwarded, filtered or written and the error is
+not nil; if the next handler fails its error is returned and nothing is filtered or written; otherwise the
+response is filtered, the final response is set and exactly one write happens (debug or normal), in that
+order; the query is recorded only after a successful normal write; the context goes back to the pool
+exactly once, as the last action, on every path.  Never panics with a context from the pool. -/
+theorem wrap_effect_order (mw : S_mainmw_Middleware) (fc : S_mainmw_filteringContext) (ri : Option S_agd_RequestInfo)
+    (flt : AbsPtr) (ctxErr : Option String) (nw : Option S_dnsserver_NonWriterResponseWriter) (up : Option String)
+    (msg : AbsPtr) (dbgW w : Option String) (differ : Bool) :
+    mainmw_handler mw (some fc) ri flt ctxErr nw up msg dbgW w differ ≠ none ∧
+    ∀ e tr, mainmw_handler mw (some fc) ri flt ctxErr nw up msg dbgW w differ = some (e, tr) →
+      before "filter" "filterRequest" tr ∧ before "filterRequest" "Err" tr ∧ cnt "filterRequest" tr = 1 ∧
+      cnt "Put" tr = 1 ∧ (names tr).getLast? = some "Put" ∧
+      (ctxErr ≠ none → e ≠ none ∧ cnt "ServeDNS" tr = 0 ∧ cnt "filterResponse" tr = 0 ∧ cnt "WriteMsg" tr = 0 ∧
+        cnt "writeDebugResponse" tr = 0 ∧ cnt "recordQueryInfo" tr = 0) ∧
+      (ctxErr = none → cnt "ServeDNS" tr = 1 ∧ before "Err" "ServeDNS" tr) ∧
+      (ctxErr = none → up ≠ none → e = up ∧ cnt "filterResponse" tr = 0 ∧ cnt "WriteMsg" tr = 0 ∧
+        cnt "writeDebugResponse" tr = 0 ∧ cnt "recordQueryInfo" tr = 0) ∧
+      (ctxErr = none → up = none →
+        before "ServeDNS" "filterResponse" tr ∧ before "filterResponse" "setFilteredResponse" tr ∧
+        cnt "filterResponse" tr = 1 ∧ cnt "setFilteredResponse" tr = 1 ∧
+        cnt "WriteMsg" tr + cnt "writeDebugResponse" tr = 1 ∧
+        (fc.isDebug = true → e = dbgW ∧ before "setFilteredResponse" "writeDebugResponse" tr ∧ cnt "recordQueryInfo" tr = 0) ∧
+        (fc.isDebug = false → e = w ∧ before "setFilteredResponse" "WriteMsg" tr ∧
+          cnt "recordQueryInfo" tr = (if w = none then 1 else 0) ∧ (w = none → before "WriteMsg" "recordQueryInfo" tr) ∧
+          cnt "Dispose" tr = (if w = none ∧ differ = true then 1 else 0))) := by
+  obtain ⟨el, dbg⟩ := fc
+  cases ctxErr <;> cases up <;> cases dbg <;> cases w <;> cases differ <;>
+    (refine ⟨by simp [mainmw_handler], fun e tr h => ?_⟩
+     simp [mainmw_handler] at h
+     obtain ⟨rfl, rfl⟩ := h
+     simp [cnt, names, before] <;> decide)
+
 end Agd.Tie.TrC02
 
 #print axioms Agd.Tie.TrC02.translation_complete
